@@ -308,4 +308,24 @@ theorem C19_code_create_tabulation_adp (pairObjects : Unit â†’ Unit â†’ CpRec â†
         simp only []
         cases sectionObjects âŸ¨tâŸ© () () "EAM-ADP-Quadrupole" <;> rfl
 
+open Atsim.Gen.Logic in
+theorem rho_loop_eq (t : EamTabRec) (l : List Int) (acc : List Rat) :
+    rho_value_iterator_loop1 acc t l = acc ++ l.map (fun n => (((n : Int) : Rat) * t.cutoff_rho) / (((t.nrho : Int) : Rat) - 1)) := by
+  induction l generalizing acc with
+  | nil => simp [rho_value_iterator_loop1]
+  | cons x rest ih =>
+    simp only [rho_value_iterator_loop1, ih, List.map_cons, List.append_assoc, List.singleton_append]
+
+open Atsim.Gen.Logic in
+/-- **code tie**: the density grid of the spreadsheet targets (`_rho_value_iterator`) is built from `nrho` and `cutoff_rho` - not from the separation grid's `nr` or
+`cutoff` (round-6 seed C11_10): `nrho` values `i * cutoff_rho / (nrho - 1)` -/
+theorem C19_code_rho_values (t : EamTabRec) (nrho : Nat) (h : t.nrho = (nrho : Int)) :
+    rho_value_iterator t = (List.range nrho).map (fun n => rValue t.cutoff_rho nrho n) := by
+  simp only [rho_value_iterator, rho_loop_eq, intRange, List.nil_append, List.map_map, sub_zero, h, Int.toNat_natCast]
+  apply List.map_congr_left
+  intro n _
+  simp only [Function.comp, rValue]
+  push_cast
+  ring
+
 end Atsim.C19
